@@ -1,4 +1,4 @@
-use crate::context::{ElementMap, TransformerContext};
+use crate::context::{Surroundings, ElementMap, TransformerContext};
 use crate::element::SvgElement;
 use crate::errors::{Result, SvgdxError};
 use crate::events::{tagify_events, InputList, OutputEvent, OutputList, Tag};
@@ -796,6 +796,8 @@ fn process_tags(
 ) -> Result<Option<BoundingBox>> {
     let mut element_errors: HashMap<OrderIndex, (SvgElement, SvgdxError)> = HashMap::new();
     let remain = &mut Vec::new();
+    // (on the heap: this function is part of the recursion for nested elements)
+    let mut waiting = Box::new(Waiting::new(tags, context));
 
     while !tags.is_empty() && remain.len() != tags.len() {
         #[cfg(feature = "verif-hooks")]
@@ -809,7 +811,9 @@ fn process_tags(
             let pending_id = t
                 .get_element_mut()
                 .and_then(|el| context.register_pending(el));
+            let attempt = waiting.before_attempt(idx, t, context);
             let gen_result = t.generate_events(context);
+            waiting.after_attempt(attempt, gen_result.is_ok(), idx, context);
             // (what is done with the result is kept out of this function, which is part
             // of the recursion for nested elements)
             if let Some(fatal) = record_tag_result(
@@ -837,6 +841,152 @@ fn process_tags(
         remain.clear();
     }
     Ok(bbb.clone().build())
+}
+
+/// An element which has to wait (for a forward reference) is evaluated later, but in the
+/// surroundings of the place where it is written: the variables, defaults, settings,
+/// previous element and random sequence as they were there. This keeps track of them
+/// for the tags of one list.
+struct Waiting {
+    /// the surroundings of the tags which wait
+    waiting_in: HashMap<OrderIndex, Surroundings>,
+    /// document position of each tag of the list
+    position: HashMap<OrderIndex, usize>,
+    /// positions of the tags which wait
+    is_waiting: HashSet<usize>,
+    /// The previous element (`^`) of a tag is what the nearest tag before it which has a
+    /// bounding box left there - once that tag has been evaluated.
+    prev_before_all: (Option<SvgElement>, Option<SvgElement>),
+    prev_left_by: HashMap<usize, (Option<SvgElement>, Option<SvgElement>)>,
+}
+
+/// One attempt at a tag
+struct Attempt {
+    pos: usize,
+    retried: bool,
+    written_in: Option<Box<Surroundings>>,
+    current: Option<Box<Surroundings>>,
+    rng_before: Box<rand_pcg::Pcg32>,
+    prev_count: u64,
+}
+
+impl Waiting {
+    fn new(tags: &[(OrderIndex, Tag)], context: &TransformerContext) -> Self {
+        Self {
+            waiting_in: HashMap::new(),
+            position: tags
+                .iter()
+                .enumerate()
+                .map(|(pos, (idx, _))| (idx.clone(), pos))
+                .collect(),
+            is_waiting: HashSet::new(),
+            prev_before_all: context.prev_elements(),
+            prev_left_by: HashMap::new(),
+        }
+    }
+
+    #[inline(never)]
+    fn before_attempt(
+        &mut self,
+        idx: &OrderIndex,
+        t: &Tag,
+        context: &mut TransformerContext,
+    ) -> Attempt {
+        let pos = self.position.get(idx).copied().unwrap_or(0);
+        let retried = self.waiting_in.contains_key(idx);
+        let after_waiting = retried || !self.is_waiting.is_empty();
+        // (on the first attempt these are the current surroundings; only an element with
+        // content can change them before it fails, so for the others they are not
+        // recorded unless that happens)
+        let mut written_in = match self.waiting_in.remove(idx) {
+            Some(surroundings) => Some(surroundings),
+            None if matches!(t, Tag::Compound(..)) || after_waiting => {
+                Some(context.surroundings())
+            }
+            None => None,
+        };
+        if after_waiting {
+            // something before this tag has had to wait, or did when this tag was first
+            // tried: find out what the previous element is by now
+            let mut prev = Some(self.prev_before_all.clone());
+            for before in (0..pos).rev() {
+                if self.is_waiting.contains(&before) {
+                    // not known yet: `^` can't be resolved
+                    prev = None;
+                    break;
+                }
+                if let Some(left) = self.prev_left_by.get(&before) {
+                    prev = Some(left.clone());
+                    break;
+                }
+            }
+            written_in = written_in.map(|w| w.with_prev(prev.unwrap_or((None, None))));
+        }
+        let current = match (&written_in, after_waiting) {
+            (Some(written_in), true) => {
+                Some(Box::new(context.set_surroundings(written_in.clone())))
+            }
+            _ => None,
+        };
+        Attempt {
+            pos,
+            retried,
+            written_in: written_in.map(Box::new),
+            current,
+            rng_before: Box::new(context.rng_state()),
+            prev_count: context.prev_count(),
+        }
+    }
+
+    #[inline(never)]
+    fn after_attempt(
+        &mut self,
+        attempt: Attempt,
+        succeeded: bool,
+        idx: &OrderIndex,
+        context: &mut TransformerContext,
+    ) {
+        if succeeded {
+            self.is_waiting.remove(&attempt.pos);
+            if context.prev_count() != attempt.prev_count {
+                self.prev_left_by
+                    .insert(attempt.pos, context.prev_elements());
+            }
+        } else {
+            // A failed attempt leaves nothing behind, except that the random numbers it
+            // drew stay drawn: the element gets the same ones when it is tried again.
+            let rng = context.rng_state();
+            let written_in = match attempt.written_in {
+                Some(written_in) => {
+                    context.set_surroundings((*written_in).clone());
+                    *written_in
+                }
+                None => {
+                    // (nothing but the random sequence has moved)
+                    context.set_rng_state(*attempt.rng_before);
+                    context.surroundings()
+                }
+            };
+            if !attempt.retried {
+                context.set_rng_state(rng);
+            }
+            self.waiting_in.insert(idx.clone(), written_in);
+            self.is_waiting.insert(attempt.pos);
+        }
+        if let Some(current) = attempt.current {
+            if attempt.retried {
+                // what a retried element does to its surroundings comes too late for the
+                // elements after it, which have been evaluated already
+                context.set_surroundings(*current);
+            } else if !succeeded {
+                let rng = context.rng_state();
+                context.set_surroundings(*current);
+                context.set_rng_state(rng);
+            }
+            // (tried for the first time after something which waits, and done: it carries
+            // on from here, with the previous element it may have left)
+        }
+    }
 }
 
 pub fn process_events(
